@@ -85,11 +85,6 @@ theorem tieA_push (c : MacCtx) (cid : Nat) (payload : List Nat) (hf : c.full = f
 
 example : addMacCommand (List.replicate 13 0) 6 [255, 0] = List.replicate 13 0 := by decide
 
-private theorem margin_all : ∀ k : Fin 256,
-    Gen.UplinkStatic.DevStatusAnsCreator.set_margin.byte ((k.val : Int) - 128) =
-      some (if -32 ≤ (k.val : Int) - 128 ∧ (k.val : Int) - 128 ≤ 31
-        then some (devStatusMargin ((k.val : Int) - 128) : Int) else none) := by decide +kernel
-
 /-- `DevStatusAnsCreator::set_margin` for every `i8`: refused outside −32..=31, otherwise the byte
 `((margin << 2) as u8) >> 2` is the model's 6-bit two's complement margin; it is stored in `data[2]`,
 the second payload byte of the answer -/
@@ -98,7 +93,12 @@ theorem tieA_devStatusMargin (snr : Int) (h : -128 ≤ snr ∧ snr ≤ 127) :
       some (if -32 ≤ snr ∧ snr ≤ 31 then some (devStatusMargin snr : Int) else none) ∧
     Gen.UplinkStatic.DevStatusAnsCreator.set_margin.index = 2 := by
   refine ⟨?_, rfl⟩
-  have := margin_all ⟨(snr + 128).toNat, by omega⟩
+  -- all 256 values of an `i8`, evaluated by the kernel
+  have all : ∀ k : Fin 256,
+      Gen.UplinkStatic.DevStatusAnsCreator.set_margin.byte ((k.val : Int) - 128) =
+        some (if -32 ≤ (k.val : Int) - 128 ∧ (k.val : Int) - 128 ≤ 31
+          then some (devStatusMargin ((k.val : Int) - 128) : Int) else none) := by decide +kernel
+  have := all ⟨(snr + 128).toNat, by omega⟩
   have e : (((snr + 128).toNat : Nat) : Int) - 128 = snr := by omega
   simpa only [e] using this
 
